@@ -436,9 +436,10 @@ def oracle(case, impl):
                     return "visible %s %r is not named on the page" % (what, s[:80])
     # hidden items contribute nothing
     low = text.lower()                  # headings are upper-cased, the subcommand value name lower-cased
+    vis_marks = {mk for s in vis for mk in markers(s)}
     for s in hid:
         for mk in markers(s):
-            if mk.lower() in low:
+            if mk not in vis_marks and mk.lower() in low:
                 return "text of a hidden item appears on the page: %r" % s[:80]
     # user text never starts a request: same control lines as the twin rendered with innocuous text
     if m.group(3) and m.group(3) not in ("PANIC", "INVALID"):
@@ -600,7 +601,7 @@ SWEEP_TEXTS = [".so /etc/passwd", "'br", "x\n.so /etc/passwd", "x\n'br", "\\fBq"
 
 def streams(tier, rng):
     stats, shape = {}, {}
-    n = 1500 if tier == "quick" else 20000
+    n = 1500 if tier == "quick" else 60000
     structured = gen_structured(n, rng, stats, shape)
     sweep_stats = {}
     sweep = gen_slot_sweep(rng, sweep_stats, SWEEP_TEXTS if tier == "quick" else SWEEP_TEXTS + sum(POOL.values(), []))
